@@ -22,10 +22,16 @@ def build(rng, quick):
     double = rng.random() < 0.5
     nta = rng.choice([0, 0, 1, 2])
     front = rng.random() < 0.35          # references only in the first segment, the rest through matching sections
-    nx = rng.randint(20, 60 if quick else 160)
-    if not quick and rng.random() < 0.1:
-        nx = rng.randint(200, 300)
-    nt = rng.randint(1, 6 if quick else 20)
+    # exact reference solve: cubic in the number of unknowns; the upper end of the range is visited rarely (see c02.gen)
+    nx = rng.randint(20, 60 if quick else 90)
+    nt = rng.randint(1, 6 if quick else 8)
+    if not quick:
+        r = rng.random()
+        if r < 0.015:
+            nx, nt = rng.randint(200, 300), rng.randint(1, 2)
+        elif r < 0.03:
+            nt = rng.randint(12, 20)
+            nx = rng.randint(20, 40)
     nseg = nta + 1
     # segment boundaries (indices where splices sit)
     cuts = sorted(rng.sample(range(8, nx - 8, 1), nta)) if nta else []
@@ -170,7 +176,7 @@ def batch(ctx, n):
 
 
 def run(ctx):
-    n = 80 if ctx.quick else 1000
+    n = 80 if ctx.quick else 640
     core.parallel_cases(ctx, batch, [(n // 8,)] * 8, jobs=8)
 
 
